@@ -50,6 +50,18 @@ def _stored(stmts) -> set:
     return out
 
 
+def _rebound(stmts) -> set:
+    """names (re)bound anywhere inside the statements -- unlike _stored, in-place mutation does not count"""
+    out = set()
+    for st in stmts:
+        for n in ast.walk(st):
+            if isinstance(n, ast.Name) and isinstance(n.ctx, (ast.Store, ast.Del)):
+                out.add(n.id)
+            elif isinstance(n, (ast.FunctionDef, ast.ClassDef, ast.AsyncFunctionDef)):
+                out.add(n.name)
+    return out
+
+
 class _Subst(ast.NodeTransformer):
     """replace loaded names by expressions (deep copies)"""
 
@@ -146,7 +158,9 @@ def _unroll_one(loop: ast.For, seq):
         names = [e.id for e in tg.elts]
     else:
         return None
-    if set(names) & _stored(loop.body):
+    # the loop targets must not be RE-BOUND in the body; mutating the object a target names in place (`c.clear()`, `c[k] = v`)
+    # is the same operation on the element expression that replaces the target
+    if set(names) & _rebound(loop.body):
         return None
     out = []
     for e in seq.elts:
